@@ -2,16 +2,37 @@
 //! `missing_field_error`, `deny_unknown_fields = f`). Each has a Gallina twin in Deser.v.
 use crate::out::ToOut;
 use crate::rec::{loc_json, log_user, UErr};
-use deserr::ValuePointerRef;
+use deserr::{DeserializeError, Deserr, IntoValue, Value, ValuePointerRef};
 use serde_json::{json, Value as J};
 
-/// `W<F, T>`: "function F was applied to a T"
+/// `W<T>`: a `T` together with the user functions that were applied to it (innermost first).
+/// It deserializes exactly like `T` (no function applied yet).
 #[derive(Debug, Clone, Default, PartialEq, Eq, Hash, PartialOrd, Ord)]
-pub struct W<const F: u32, T>(pub T);
+pub struct W<T> {
+    pub inner: T,
+    pub fns: Vec<u32>,
+}
 
-impl<const F: u32, T: ToOut> ToOut for W<F, T> {
+pub fn w<T>(inner: T) -> W<T> {
+    W { inner, fns: vec![] }
+}
+
+impl<T: ToOut> ToOut for W<T> {
     fn to_out(&self) -> J {
-        json!({"fn": [F, self.0.to_out()]})
+        let mut o = self.inner.to_out();
+        for f in &self.fns {
+            o = json!({"fn": [f, o]});
+        }
+        o
+    }
+}
+
+impl<E: DeserializeError, T: Deserr<E>> Deserr<E> for W<T> {
+    fn deserialize_from_value<V: IntoValue>(
+        value: Value<V>,
+        location: ValuePointerRef,
+    ) -> Result<Self, E> {
+        T::deserialize_from_value(value, location).map(w)
     }
 }
 
@@ -41,25 +62,30 @@ pub fn ufail(o: &J) -> bool {
     }
 }
 
-pub fn conv<const F: u32, T: ToOut>(t: T) -> W<F, T> {
+pub fn conv<const F: u32, T: ToOut>(t: T) -> W<T> {
     log_user(F, json!([{"o": t.to_out()}]));
-    W(t)
+    W { inner: t, fns: vec![F] }
 }
-pub fn conv_ref<const F: u32, T: ToOut + Clone>(t: &T) -> W<F, T> {
-    log_user(F, json!([{"o": t.to_out()}]));
-    W(t.clone())
+pub fn conv_ref<const F: u32, T: ToOut + Clone>(t: &T) -> W<T> {
+    conv::<F, T>(t.clone())
 }
-pub fn tconv<const F: u32, T: ToOut>(t: T) -> Result<W<F, T>, UErr> {
+pub fn tconv<const F: u32, T: ToOut>(t: T) -> Result<W<T>, UErr> {
     let o = t.to_out();
     log_user(F, json!([{"o": o}]));
     if ufail(&o) {
         Err(UErr { f: F, args: json!([{"o": o}]) })
     } else {
-        Ok(W(t))
+        Ok(W { inner: t, fns: vec![F] })
     }
 }
-pub fn tconv_ref<const F: u32, T: ToOut + Clone>(t: &T) -> Result<W<F, T>, UErr> {
+pub fn tconv_ref<const F: u32, T: ToOut + Clone>(t: &T) -> Result<W<T>, UErr> {
     tconv::<F, T>(t.clone())
+}
+/// `map = mapf::<F, T>`: an endomorphism of the declared type `W<T>`
+pub fn mapf<const F: u32, T: ToOut>(mut x: W<T>) -> W<T> {
+    log_user(F, json!([{"o": x.to_out()}]));
+    x.fns.push(F);
+    x
 }
 pub fn validate<const F: u32, S: ToOut>(s: S, loc: ValuePointerRef) -> Result<S, UErr> {
     let o = s.to_out();
